@@ -38,6 +38,12 @@ type Map struct {
 	Zero Value
 }
 
+// Slice is a slice (or array) of addressable cells.
+type Slice struct{ E []*Cell }
+
+// Nil is the nil pointer/interface/slice.
+type Nil struct{}
+
 // Tuple is a multi-value result.
 type Tuple []Value
 
@@ -240,6 +246,10 @@ func ConstValue(c *ssa.Const) Value {
 				return float64(0)
 			}
 		}
+		switch c.Type().Underlying().(type) {
+		case *types.Pointer, *types.Interface, *types.Slice, *types.Map, *types.Signature, *types.Chan:
+			return Nil{}
+		}
 		return Unknown{"nil/zero constant of type " + c.Type().String()}
 	}
 	switch c.Value.Kind() {
@@ -292,6 +302,126 @@ func (m *Machine) instr(env map[ssa.Value]Value, in ssa.Value) (Value, error) {
 			return nil, errf("FieldAddr on %v", b)
 		}
 		return &Ptr{C: p.C, Path: append(append([]int{}, p.Path...), x.Field)}, nil
+	case *ssa.IndexAddr:
+		b, err := m.val(env, x.X)
+		if err != nil {
+			return nil, err
+		}
+		iv, err := m.val(env, x.Index)
+		if err != nil {
+			return nil, err
+		}
+		i, ok := iv.(int64)
+		if !ok {
+			return nil, errf("IndexAddr with non-constant index")
+		}
+		var sl *Slice
+		switch bb := b.(type) {
+		case *Slice:
+			sl = bb
+		case *Ptr:
+			v, err := load(bb)
+			if err != nil {
+				return nil, err
+			}
+			sl, _ = v.(*Slice)
+		}
+		if sl == nil {
+			return nil, errf("IndexAddr on %v", b)
+		}
+		if i < 0 || int(i) >= len(sl.E) {
+			return nil, errf("index %d out of range in model (len %d)", i, len(sl.E))
+		}
+		return &Ptr{C: sl.E[i]}, nil
+	case *ssa.Index:
+		b, err := m.val(env, x.X)
+		if err != nil {
+			return nil, err
+		}
+		iv, err := m.val(env, x.Index)
+		if err != nil {
+			return nil, err
+		}
+		i, ok := iv.(int64)
+		if !ok {
+			return nil, errf("Index with non-constant index")
+		}
+		switch bb := b.(type) {
+		case *Slice:
+			if i < 0 || int(i) >= len(bb.E) {
+				return nil, errf("index out of range in model")
+			}
+			return copyVal(bb.E[i].V), nil
+		case string:
+			if i < 0 || int(i) >= len(bb) {
+				return nil, errf("string index out of range in model")
+			}
+			return int64(bb[i]), nil
+		}
+		return nil, errf("Index on %v", b)
+	case *ssa.Slice:
+		b, err := m.val(env, x.X)
+		if err != nil {
+			return nil, err
+		}
+		lo, hi := int64(0), int64(-1)
+		if x.Low != nil {
+			v, err := m.val(env, x.Low)
+			if err != nil {
+				return nil, err
+			}
+			l, ok := v.(int64)
+			if !ok {
+				return nil, errf("slice low not constant")
+			}
+			lo = l
+		}
+		if x.High != nil {
+			v, err := m.val(env, x.High)
+			if err != nil {
+				return nil, err
+			}
+			h, ok := v.(int64)
+			if !ok {
+				return nil, errf("slice high not constant")
+			}
+			hi = h
+		}
+		switch bb := b.(type) {
+		case *Ptr:
+			v, err := load(bb)
+			if err != nil {
+				return nil, err
+			}
+			sl, ok := v.(*Slice)
+			if !ok {
+				return nil, errf("slice of %v", v)
+			}
+			if hi < 0 {
+				hi = int64(len(sl.E))
+			}
+			if lo < 0 || hi > int64(len(sl.E)) || lo > hi {
+				return nil, errf("slice bounds out of range in model")
+			}
+			return &Slice{E: sl.E[lo:hi]}, nil
+		case *Slice:
+			if hi < 0 {
+				hi = int64(len(bb.E))
+			}
+			if lo < 0 || hi > int64(len(bb.E)) || lo > hi {
+				return nil, errf("slice bounds out of range in model")
+			}
+			return &Slice{E: bb.E[lo:hi]}, nil
+		case string:
+			if hi < 0 {
+				hi = int64(len(bb))
+			}
+			if lo < 0 || hi > int64(len(bb)) || lo > hi {
+				return nil, errf("string slice bounds out of range in model")
+			}
+			return bb[lo:hi], nil
+		}
+		return nil, errf("Slice of %v", b)
 	case *ssa.Field:
 		b, err := m.val(env, x.X)
 		if err != nil {
@@ -405,6 +535,20 @@ func (m *Machine) instr(env map[ssa.Value]Value, in ssa.Value) (Value, error) {
 			}
 			args = append(args, v)
 		}
+		if bi, ok := x.Call.Value.(*ssa.Builtin); ok {
+			switch bi.Name() {
+			case "len":
+				switch a := args[0].(type) {
+				case string:
+					return int64(len(a)), nil
+				case *Slice:
+					return int64(len(a.E)), nil
+				case *Map:
+					return int64(len(a.M)), nil
+				}
+			}
+			return nil, errf("builtin %s on %v not modelled", bi.Name(), args)
+		}
 		callee := x.Call.StaticCallee()
 		if m.Prim != nil {
 			if v, ok := m.Prim(&x.Call, callee, args); ok {
@@ -432,6 +576,12 @@ func zeroOf(t types.Type) Value {
 			s.F[i] = zeroOf(u.Field(i).Type())
 		}
 		return s
+	case *types.Array:
+		sl := &Slice{}
+		for i := int64(0); i < u.Len() && i < 64; i++ {
+			sl.E = append(sl.E, &Cell{V: zeroOf(u.Elem())})
+		}
+		return sl
 	case *types.Basic:
 		switch {
 		case u.Info()&types.IsBoolean != 0:
@@ -448,6 +598,31 @@ func zeroOf(t types.Type) Value {
 }
 
 func binop(op token.Token, a, b Value) (Value, error) {
+	if op == token.EQL || op == token.NEQ {
+		_, an := a.(Nil)
+		_, bn := b.(Nil)
+		pa, ap := a.(*Ptr)
+		pb, bp := b.(*Ptr)
+		var eq, known bool
+		switch {
+		case an && bn:
+			eq, known = true, true
+		case (an && bp) || (bn && ap):
+			eq, known = false, true
+		case ap && bp:
+			eq, known = pa.C == pb.C && len(pa.Path) == len(pb.Path), true
+		case an || bn:
+			// nil against an opaque non-nil model value
+			if _, isU := a.(Unknown); !isU {
+				if _, isU := b.(Unknown); !isU {
+					eq, known = false, true
+				}
+			}
+		}
+		if known {
+			return eq == (op == token.EQL), nil
+		}
+	}
 	switch x := a.(type) {
 	case string:
 		y, ok := b.(string)
@@ -539,4 +714,136 @@ func binop(op token.Token, a, b Value) (Value, error) {
 		}
 	}
 	return nil, errf("binop %s on %v, %v", op, a, b)
+}
+
+// NewSliceOf builds a slice value from elements.
+func NewSliceOf(vs ...Value) *Slice {
+	s := &Slice{}
+	for _, v := range vs {
+		s.E = append(s.E, &Cell{V: v})
+	}
+	return s
+}
+
+// Fold evaluates an SSA value that is defined by straight-line code (constants,
+// calls, varargs arrays) on demand, e.g. the initialiser stored into a package
+// variable by the package init function.
+func (m *Machine) Fold(v ssa.Value) (Value, error) {
+	m.Depth++
+	defer func() { m.Depth-- }()
+	if m.Depth > 60 {
+		return nil, errf("fold depth exceeded")
+	}
+	switch x := v.(type) {
+	case *ssa.Const:
+		return ConstValue(x), nil
+	case *ssa.Call:
+		args := []Value{}
+		for _, a := range x.Call.Args {
+			av, err := m.Fold(a)
+			if err != nil {
+				return nil, err
+			}
+			args = append(args, av)
+		}
+		callee := x.Call.StaticCallee()
+		if m.Prim != nil {
+			if r, ok := m.Prim(&x.Call, callee, args); ok {
+				if u, isU := r.(Unknown); isU {
+					return nil, errf("call %s: %s", x.Call.Value, u.Why)
+				}
+				return r, nil
+			}
+		}
+		if callee == nil || callee.Blocks == nil {
+			return nil, errf("call %s not foldable", x.Call.Value)
+		}
+		return m.Call(callee, args)
+	case *ssa.Slice:
+		// varargs: slice of a local array filled by stores
+		al, ok := x.X.(*ssa.Alloc)
+		if !ok {
+			return nil, errf("slice of %T not foldable", x.X)
+		}
+		arr, ok := al.Type().(*types.Pointer).Elem().Underlying().(*types.Array)
+		if !ok {
+			return nil, errf("slice of non-array alloc")
+		}
+		sl := &Slice{}
+		for i := int64(0); i < arr.Len(); i++ {
+			sl.E = append(sl.E, &Cell{V: Unknown{"unset varargs element"}})
+		}
+		for _, ref := range *al.Referrers() {
+			ia, ok := ref.(*ssa.IndexAddr)
+			if !ok {
+				continue
+			}
+			ic, ok := ia.Index.(*ssa.Const)
+			if !ok {
+				return nil, errf("varargs array indexed by non-constant")
+			}
+			idx, _ := constant.Int64Val(ic.Value)
+			for _, r2 := range *ia.Referrers() {
+				if st, ok := r2.(*ssa.Store); ok && st.Addr == ia {
+					ev, err := m.Fold(st.Val)
+					if err != nil {
+						return nil, err
+					}
+					sl.E[idx].V = ev
+				}
+			}
+		}
+		return sl, nil
+	case *ssa.MakeInterface:
+		return m.Fold(x.X)
+	case *ssa.ChangeType:
+		return m.Fold(x.X)
+	case *ssa.Convert:
+		return m.Fold(x.X)
+	case *ssa.BinOp:
+		a, err := m.Fold(x.X)
+		if err != nil {
+			return nil, err
+		}
+		b, err := m.Fold(x.Y)
+		if err != nil {
+			return nil, err
+		}
+		return binop(x.Op, a, b)
+	case *ssa.UnOp:
+		if x.Op == token.MUL {
+			if g, ok := x.X.(*ssa.Global); ok {
+				if m.Global != nil {
+					if r, ok := m.Global(g); ok {
+						return r, nil
+					}
+				}
+				return nil, errf("global %s not foldable", g.Name())
+			}
+		}
+	}
+	return nil, errf("value %s (%T) not foldable", v, v)
+}
+
+// GlobalInit finds the value stored into g by its package's init function
+// (exactly one store) and returns it.
+func GlobalInit(g *ssa.Global) (ssa.Value, error) {
+	init := g.Pkg.Func("init")
+	if init == nil {
+		return nil, errf("no init function")
+	}
+	var val ssa.Value
+	n := 0
+	for _, b := range init.Blocks {
+		for _, ins := range b.Instrs {
+			if st, ok := ins.(*ssa.Store); ok && st.Addr == g {
+				val = st.Val
+				n++
+			}
+		}
+	}
+	if n != 1 {
+		return nil, errf("%d initialising stores to %s", n, g.Name())
+	}
+	return val, nil
 }
